@@ -163,8 +163,11 @@ func (g *gen) reply() Op {
 	return op
 }
 
-func (g *gen) hb() Op {
-	op := Op{Op: "hb", OK: g.n(2) == 0}
+func (g *gen) hb() Op { return g.hbp(50) }
+
+// hbp: a heartbeat that succeeds with probability okPercent
+func (g *gen) hbp(okPercent int) Op {
+	op := Op{Op: "hb", OK: g.n(100) < okPercent}
 	if g.n(10) == 0 {
 		op.Other = true
 		op.OK = g.n(2) == 0
@@ -198,7 +201,114 @@ func (g *gen) meter() Op {
 	return op
 }
 
+// genScenario builds a case from a scripted skeleton with random parameters: the sequences the property is about
+// (outage, reconfiguration during it, recovery; repeated answers around a lowered limit; heartbeat flaps around the
+// time-out) that a uniform op mix reaches only rarely.
+func genScenario(c *rig.Ctx, i int) Case {
+	g := &gen{c: c, rt: 1000, now: 10 * sec}
+	cs := Case{Shards: 1 + g.n(3), Cfg: Cfg{RateLimiter: "remote", HasCS: true}}
+	g.kindMI = g.n(100) < 60
+	maxGlobal := int64(0)
+	note := func(s Schema) {
+		if s.GMI != nil && *s.GMI > maxGlobal {
+			maxGlobal = *s.GMI
+		}
+	}
+	sch := func(strategy string) Op {
+		s := g.schema(g.kindMI)
+		s.Strategy = strategy
+		g.cur = s
+		note(s)
+		return Op{Op: "schema", Schema: &s}
+	}
+	fresh := func(op Op) Op { g.rt += int64(1 + g.n(50)); op.RT = g.rt; return op }
+	var ops []Op
+	ready := func() {
+		ops = append(ops, Op{Op: "shards", N: cs.Shards})
+		h := g.hb()
+		h.OK, h.Other = true, false
+		g.hbState, g.hbChanged = true, h.Now
+		ops = append(ops, h)
+	}
+	maybe := func(p int, f func()) {
+		if g.n(100) < p {
+			f()
+		}
+	}
+	errReply := func() Op {
+		return fresh(Op{Op: "setlimit", Err: rig.Pick(g.c.Rng, []string{"timeout", "limiter server unavailable"}), Accept: g.n(2) == 0, Limit: g.limit()})
+	}
+	switch g.n(4) {
+	case 0, 1: // global count: outage, reconfiguration during the outage, recovery
+		ops = append(ops, sch("globalCount"))
+		ready()
+		ops = append(ops, Op{Op: "reconcile"})
+		maybe(60, func() { ops = append(ops, fresh(Op{Op: "setlimit", Accept: g.n(3) != 0, Limit: g.limit()})) })
+		maybe(70, func() { ops = append(ops, g.meter()) })
+		ops = append(ops, errReply())
+		maybe(40, func() { ops = append(ops, errReply()) })
+		maybe(70, func() { ops = append(ops, sch("globalCount"), Op{Op: "reconcile"}) })
+		maybe(40, func() { ops = append(ops, Op{Op: "setlimit", Accept: true, Limit: g.limit(), RT: g.rt - int64(g.n(3))}) }) // stale
+		maybe(30, func() { ops = append(ops, fresh(Op{Op: "setlimit", Err: "RequestIDTooOld", Accept: true, Limit: g.limit()})) })
+		ops = append(ops, fresh(Op{Op: "setlimit", Accept: g.n(4) != 0, Limit: g.limit()}))
+		maybe(50, func() { ops = append(ops, sch("globalCount"), Op{Op: "reconcile"}) })
+		maybe(50, func() { ops = append(ops, fresh(Op{Op: "setlimit", Accept: true, Limit: g.limit()})) })
+		maybe(30, func() { ops = append(ops, errReply(), Op{Op: "reconcile"}, fresh(Op{Op: "setlimit", Accept: true, Limit: g.limit()})) })
+	case 2: // global allocate: answers around a limit that is lowered and raised, the same answer repeated
+		ops = append(ops, sch("globalAllocate"))
+		ready()
+		it := g.item()
+		it.Strategy = "globalAllocate"
+		ops = append(ops, Op{Op: "answer", Named: true, Item: it})
+		for k := 0; k < 2+g.n(4); k++ {
+			maybe(60, func() { ops = append(ops, sch("globalAllocate")) })
+			if g.n(2) == 0 {
+				ops = append(ops, Op{Op: "answer", Named: true, Item: it}) // the server repeats itself
+			} else {
+				it = g.item()
+				if g.n(4) != 0 {
+					it.Strategy = "globalAllocate"
+				}
+				ops = append(ops, Op{Op: "answer", Named: true, Item: it})
+			}
+		}
+	default: // readiness: heartbeats around the time-out while a remote limiter exists
+		ops = append(ops, sch(rig.Pick(g.c.Rng, []string{"globalCount", "globalAllocate"})))
+		ready()
+		if g.cur.Strategy == "globalCount" {
+			ops = append(ops, Op{Op: "reconcile"})
+		} else {
+			it := g.item()
+			it.Strategy = "globalAllocate"
+			if g.kindMI {
+				it.MI, it.TB = p64(g.limit()), nil
+			} else {
+				it.MI, it.TB = nil, &[2]int64{g.limit(), g.limit()}
+			}
+			ops = append(ops, Op{Op: "answer", Named: true, Item: it})
+		}
+		for k := 0; k < 4+g.n(8); k++ {
+			h := g.hbp(25) // mostly failures, so that runs of failures get long enough
+			ops = append(ops, h)
+			maybe(15, func() { ops = append(ops, Op{Op: "shards", N: rig.Pick(g.c.Rng, []int{0, cs.Shards})}) })
+		}
+	}
+	cs.Ops = ops
+	p := maxGlobal + 2
+	if p > 400 {
+		p = 400
+	}
+	if p < 8 {
+		p = 8
+	}
+	cs.Probe = int(p)
+	return cs
+}
+
 func genCase(c *rig.Ctx, i int) Case {
+	if i%8 == 5 {
+		return genScenario(c, i)
+	}
 	g := &gen{c: c, rt: 1000, now: 10 * sec}
 	cs := Case{Shards: 1 + g.n(3)}
 	switch x := g.n(100); {
